@@ -121,9 +121,6 @@ KNOWN_TRIGGERS = collections.OrderedDict([
     ("c07-unregister-snapshot-index",
      "a thread is inside unregister_provide_reference's loop over list(provide_references.keys()) while another thread pops one "
      "of the snapshotted keys before the first thread indexes it"),
-    ("c07-register-empty-check",
-     "a component without an own live provider passes register_provide_reference's `if not provide_cache` test because another "
-     "thread's provider is alive"),
     ("c07-lru-unsynchronised",
      "two threads are inside LRUCache.get/set of the template cache at the same time"),
     ("c07-media-double-resolve",
@@ -628,8 +625,9 @@ def triggers(family, rec):
             nxt = next((tr[s] for s in range(p + 1, len(tr)) if tr[s][0] == x), None)
             if nxt is not None and nxt[1] == "RegAddAll" and nxt[2] == d and not any(owner(k) == x for k in live):
                 t3 = True
-    if t3:
-        out.append("c07-register-empty-check")
+    # (not a known class of its own on the current code: registering needlessly only EXPOSES the thread to T2; recorded
+    #  in the statistics, never used to excuse an interference)
+    rec["exposed_by_register_empty_check"] = t3
     # T4: LRU operations of two threads overlap
     t4 = False
     inside = {}
@@ -807,6 +805,8 @@ def classify(chk, family, rec, solo, stats, where):
         stats["outside"] += 1
         return bad, trg
     stats["known:" + "+".join(trg)] += 1
+    if rec.get("exposed_by_register_empty_check"):
+        stats["interference-with-needless-registration(F3)"] += 1
     # attribute to one class: a class that holds alone is the cause; otherwise the first in causal order
     chk.fail(trg[0], "; ".join(bad), replay)
     for t in trg:
